@@ -18,6 +18,9 @@ def jobs(tier):
         # one backslash anywhere across two AVX2 blocks / four SSE blocks
         for n in ([12] if q else list(range(12, 71))):
             add('bs1.n%d' % n, [n, 1, 0], 'every literal body of %d bytes with at most one backslash (position and all byte values symbolic)' % n, nproc=16)
+        # escape first, plain bytes across the block edges, two unrestricted bytes at the end (copying phase of the decoder)
+        for n in ([33, 40, 66] if q else list(range(8, 100))):
+            add('escfirst.n%d' % n, [n, 1, 0, 1], 'literal body of %d bytes: backslash + any escape (all values symbolic), plain symbolic bytes, last two bytes unrestricted except backslash' % n, nproc=8)
         # two backslashes: surrogate pairs and back-to-back escapes
         for n in ([] if q else list(range(12, 25))):
             add('bs2.n%d' % n, [n, 2, 0], 'every literal body of %d bytes with at most two backslashes (positions and all byte values symbolic)' % n, nproc=16)
